@@ -581,6 +581,71 @@ func indexSearchSummary(p *Prog, h *ssa.Function) *idxSum {
 	return sum
 }
 
+var tupleIdxCache = map[*ssa.Function]int{}
+
+// tupleIndexSearch recognises `func indexOf(list []T, …) (int, bool)`: one range loop over a slice
+// parameter, every return inside it hands out (the loop index, true), every return outside it
+// (a negative constant, false). It returns the position of the list parameter, or −1.
+func tupleIndexSearch(p *Prog, h *ssa.Function) int {
+	if h == nil || h.Blocks == nil || !p.inRepo(h) {
+		return -1
+	}
+	if v, ok := tupleIdxCache[h]; ok {
+		return v
+	}
+	tupleIdxCache[h] = -1
+	res := h.Signature.Results()
+	if res.Len() != 2 || !isInteger(res.At(0).Type()) || !isBool(res.At(1).Type()) || !p.readOnly(h) {
+		return -1
+	}
+	var loop *Loop
+	for _, l := range loopsOf(h) {
+		if l.IdxPhi == nil || loop != nil {
+			return -1
+		}
+		loop = l
+	}
+	if loop == nil {
+		return -1
+	}
+	listIdx := -1
+	for i, prm := range h.Params {
+		if loop.Over == ssa.Value(prm) {
+			listIdx = i
+		}
+	}
+	if listIdx < 0 {
+		return -1
+	}
+	hits := 0
+	for _, b := range h.Blocks {
+		r, ok := b.Instrs[len(b.Instrs)-1].(*ssa.Return)
+		if !ok {
+			continue
+		}
+		kb, isB := r.Results[1].(*ssa.Const)
+		if !isB || kb.Value == nil {
+			return -1
+		}
+		found := kb.Value.String() == "true"
+		if ki, isC := r.Results[0].(*ssa.Const); isC {
+			if found || ki.Value == nil || ki.Int64() >= 0 || loop.Blocks[b] {
+				return -1
+			}
+			continue
+		}
+		if !found || !(r.Results[0] == loop.Idx || rangeLoopOf(r.Results[0]) == loop.IdxPhi) {
+			return -1
+		}
+		hits++
+	}
+	if hits == 0 {
+		return -1
+	}
+	tupleIdxCache[h] = listIdx
+	return listIdx
+}
+
 // bound: the summary's list and literal with h's parameters replaced by the call's arguments.
 func (s *idxSum) bound(args []*Term) (*Term, *Term) {
 	bind := map[ssa.Value]*Term{}
